@@ -25,7 +25,7 @@ for d in sorted(glob.glob(os.path.join(VERIF, 'seeded', 'benign', '*_*'))):
         out = {}
         for p in todo:
             c = subprocess.run([os.path.join(VERIF, 'check'), p, '--no-canary'], capture_output=True, text=True, cwd=VERIF,
-                               env=dict(os.environ, VERIF_QUICK_SEARCH_MS='2000'))
+                               env=dict(os.environ, VERIF_QUICK_SEARCH_MS='2000', VERIF_FALLBACK_MS='5000'))
             out[p] = {'rc': c.returncode, 'lines': [l[:300] for l in c.stdout.split('\n') if l.startswith(('VIOLATION', 'UNDECIDED', '  failed', '  the deductive', '  bounded'))][:6]}
         results[name] = out
         print('%-22s %s' % (name, ' '.join('%s:%d' % (p, out[p]['rc']) for p in todo)))
